@@ -36,6 +36,7 @@ import (
 	"github.com/cosi-project/runtime/pkg/state/protobuf/client"
 	"github.com/cosi-project/runtime/pkg/state/protobuf/server"
 
+	"verif/harness/gp"
 	"verif/harness/res"
 	"verif/harness/vk"
 )
@@ -306,6 +307,10 @@ func targets() []target {
 			}
 
 			return inmem.NewStateWithOptions(inmem.WithBackingStore(bs.WithNamespace("ns")))("ns"), func() { _ = bs.Close() }
+		}},
+		{"slowstore", func(string) (state.CoreState, func()) {
+			// a backing store that takes real time: whatever a collection does around its store calls is exposed to the other clients
+			return inmem.NewStateWithOptions(inmem.WithBackingStore(&gp.SlowStore{Micros: 40}))("ns"), noop
 		}},
 		{"filter", func(string) (state.CoreState, func()) {
 			return state.Filter(inmem.NewState("ns"), func(context.Context, state.Access) error { return nil }), noop
